@@ -59,6 +59,8 @@ def diffuse_run(N, costheta_scalar=False):
         g.betaTrSubN = symarr([f"beta{i}" for i in idx])
         g.event_mask = np.logical_and(g.costhetaTrSubN >= 0, g.betaTrSubN < 42)
         g.mcnorm = SV(t=_R("mcnorm"))
+        # the configured number of events need not be the number thrown in this batch (throw(u) with any (4, N) array is public)
+        g.config = type("Cfg", (), {"simulation": type("S", (), {"thrown_events": N + 7, "mode": "Diffuse"})()})()
         valid = [i for i in idx if bool(g.event_mask[i])]  # forks: 2^N validity patterns
         trig = symarr([f"trig{i}" for i in valid])
         cosc = SV(t=_R("cosCh")) if costheta_scalar else symarr([f"cosCh{i}" for i in valid])
@@ -117,6 +119,7 @@ def diffuse_run(N, costheta_scalar=False):
                     setattr(g2, att, SymArray(getattr(g, att).a[perm].copy()))
                 g2.event_mask = np.logical_and(g2.costhetaTrSubN >= 0, g2.betaTrSubN < 42)
                 g2.mcnorm = g.mcnorm
+                g2.config = g.config
                 pv = [i for i in perm if i in valid]
                 pos = [valid.index(i) for i in pv]
                 trig_p, pex_p = SymArray(trig.a[pos].copy()), SymArray(pex.a[pos].copy())
@@ -339,6 +342,7 @@ def _real_diffuse(m, N, scalar):
     g.costhetaTrSubV, g.costhetaTrSubN, g.costhetaNSubV, g.betaTrSubN = A("cTrV"), A("cTrN"), A("cNV"), A("beta")
     g.event_mask = np.logical_and(g.costhetaTrSubN >= 0, g.betaTrSubN < 42)
     g.mcnorm = m.get("mcnorm", 1.0)
+    g.config = type("Cfg", (), {"simulation": type("S", (), {"thrown_events": N + 7, "mode": "Diffuse"})()})()
     valid = [i for i in range(N) if g.event_mask[i]]
     V = lambda n, d: np.array([m.get(f"{n}{i}", d) for i in valid], dtype=float)  # noqa
     trig, pex = V("trig", 1.0), V("pexit", 0.5)
@@ -383,6 +387,7 @@ def _replay_sequences():
     g.betaTrSubN = rng.uniform(0, 60, N)
     g.event_mask = np.logical_and(g.costhetaTrSubN >= 0, g.betaTrSubN < 42)
     g.mcnorm = 3.7
+    g.config = type("Cfg", (), {"simulation": type("S", (), {"thrown_events": 1000, "mode": "Diffuse"})()})()
     n = int(g.event_mask.sum())
     trig, cosc, pex = rng.uniform(0, 5, n), rng.uniform(0.9, 1, n), rng.uniform(0.01, 1, n)
 
@@ -405,6 +410,10 @@ def _replay_sequences():
         bad.append(f"diffuse: second call with the same arrays gives {r2[0]} instead of {r1[0]}")
     if r3[0] < r1[0] * (1 - 1e-12):
         bad.append(f"diffuse: integral rises from {r3[0]} (threshold 1) to {r1[0]} (threshold 2)")
+    with np.errstate(all="ignore"):
+        r4 = g.mcintegral(trig, cosc, pex, 2.0, 4.0, 0.25)  # power-law spectrum factors: spec_norm * spec_weights_sum == 1
+    if abs(r4[0] - e1) > 1e-9 * abs(e1):
+        bad.append(f"diffuse: with spectrum factors (4, 1/4), whose product is 1, the integral is {r4[0]} instead of {e1}")
     # permutation
     perm = rng.permutation(N)
     g2 = object.__new__(RegionGeom)
@@ -412,6 +421,7 @@ def _replay_sequences():
         setattr(g2, a, getattr(g, a)[perm])
     g2.event_mask = g.event_mask[perm]
     g2.mcnorm = g.mcnorm
+    g2.config = g.config
     idx = np.cumsum(g.event_mask) - 1
     pv = idx[perm][g.event_mask[perm]]
     with np.errstate(all="ignore"):
@@ -441,6 +451,10 @@ def _replay_sequences():
             bad.append(f"target ({method}): first call {a1[0]} vs reference {e}")
         if abs(a2[0] - a1[0]) > 1e-12 * abs(a1[0]) or abs(a2[1] - a1[1]) > 1e-12 * abs(a1[1]):
             bad.append(f"target ({method}): second call gives {a2[0]} / {a2[1]} instead of {a1[0]} / {a1[1]}")
+        with np.errstate(all="ignore"):
+            a3 = t.mcintegral(trig, cosc, pex, 2.0, 4.0, 0.25, lenDec=ld, method=method)
+        if abs(a3[0] - e) > 1e-9 * abs(e):
+            bad.append(f"target ({method}): with spectrum factors (4, 1/4), whose product is 1, the integral is {a3[0]} instead of {e}")
     return bad
 
 
